@@ -242,13 +242,15 @@ def gen_moasha_case(rng):
     cursors = {t: 0 for t in range(ntrials)}
     assign = {t: rng.randrange(brackets) for t in range(ntrials)}
     grid = rng.choice([3, 5, 100])
+    stride_mode = rng.choice([0, 0, 3, 9])
     evs = []
     alive = list(range(ntrials))
     for _ in range(rng.randint(5, 60)):
         if not alive:
             break
         t = rng.choice(alive)
-        cursors[t] += 1
+        # consecutive epochs mostly; some trials report with a stride / a late first report (jumping over rung levels)
+        cursors[t] += 1 if (stride_mode == 0 or rng.random() < 0.5) else rng.randint(1, stride_mode)
         vals = [float(rng.randint(0, grid)) if grid < 100 else rng.uniform(0, 1) for _ in range(nmet)]
         evs.append((t, cursors[t], vals))
     return dict(metrics=metrics, mode=mode, rf=rf, grace=grace, max_t=max_t, brackets=brackets, prio=prio, max_num_samples=max_num_samples, key_order=key_order,
@@ -289,6 +291,9 @@ def moasha_sequences(ctx, replay):
         stopped = set()
         added = set()
         reported_vectors = set()
+        # harness-side reference bookkeeping of "trials recorded at a rung" (per bracket: milestone -> {trial: vector})
+        ref_rungs = [{float(m): {} for m in bracket_milestones(spec["grace"], spec["max_t"], spec["rf"], s)}
+                     for s in range(spec["brackets"])]
         ev_terms = []
         decisions = []
         nontriv = False
@@ -316,6 +321,23 @@ def moasha_sequences(ctx, replay):
             decisions.append(dec)
             signed = [s * v for s, v in zip(signs, vals)]
             reported_vectors.add(tuple(signed))
+            # reference: the report is recorded at the highest rung reached that does not hold the trial yet
+            ref_expected = None
+            if it < spec["max_t"]:
+                for ms in sorted(ref_rungs[bi].keys(), reverse=True):
+                    if it < ms or t in ref_rungs[bi][ms]:
+                        continue
+                    ref_expected = [list(v) for v in ref_rungs[bi][ms].values()]
+                    ref_rungs[bi][ms][t] = tuple(signed)
+                    break
+            called = len(rec.calls) > ncalls
+            if viol is None and ref_expected is not None and (bool(ref_expected) != called or (
+                    called and sorted(map(tuple, rec.calls[-1][0][:-1])) != sorted(map(tuple, ref_expected)))):
+                viol = dict(event=[t, it, vals], matrix=(rec.calls[-1][0] if called else None), own_signed=signed,
+                            decision=dec, expected="competitors recorded at the rung: %s" % ref_expected, kind="competitors")
+            if viol is None and ref_expected is None and called:
+                viol = dict(event=[t, it, vals], matrix=rec.calls[-1][0], own_signed=signed, decision=dec,
+                            expected="no rung reached / trial already recorded at every reached rung", kind="competitors")
             if len(rec.calls) > ncalls:
                 mat, pr = rec.calls[-1]
                 # the objective matrix handed to the priority must consist of the recorded trials' metrics,
@@ -358,7 +380,12 @@ def moasha_sequences(ctx, replay):
         ctx.h("moasha_prio", spec["prio"])
         ctx.h("moasha_decisions", "STOP", decisions.count("STOP"))
         ctx.h("moasha_decisions", "CONTINUE", decisions.count("CONTINUE"))
-        if viol is not None and viol.get("kind") == "matrix":
+        if viol is not None and viol.get("kind") == "competitors":
+            ctx.violation("property",
+                          "MOASHA ranked a trial reaching a rung against %s but %s" % (viol["matrix"], viol["expected"]),
+                          case=dict(kind="moasha", spec=spec, first_bad=viol),
+                          signature=dict(scheduler="MOASHA", defect="wrong_set_of_trials_recorded_at_rung"))
+        elif viol is not None and viol.get("kind") == "matrix":
             ctx.violation("property",
                           "MOASHA ranked a trial on an objective vector %s that is not its reported metrics %s in the "
                           "declared order of `metrics`" % (viol["matrix"][-1], viol["own_signed"]),
